@@ -28,26 +28,29 @@ func init() {
 	hx.Register(&hx.Prop{
 		ID: "C08",
 		Rule: "exhaustive blocks: (1) all 64 subsets of the response keys {200,201,2XX,4XX,404,default} × 18 status codes (incl. 99,100,599,600,0,-1 and the four skipped codes) × strict × GET/HEAD, " +
-			"each entry tagged by its own required header so that the entry chosen is observable (response without headers, and response carrying every tag header but one: rejected exactly when that entry is selected), other class keys (1XX,3XX,5XX,6XX,2xx,XXX) × boundary codes; (2) header kinds (string, integer, boolean, untyped, array, object with write-only property, described by content) × raw values × required × present/absent × options, pairs of failing headers, the ignored Content-Type header, a non-canonical declared name; " +
-			"(3) 9 content maps × 10 Content-Type values × body kinds; (4) object schemas with all subsets of required ⊆ {a,ro,wo,z} × all key subsets of {a,ro,wo,x} × null/non-null write-only value × additionalProperties {absent,false,schema} × options, at top level, nested under a property and inside an array; " +
-			"then a seeded random stream of response maps, headers, schemas of depth ≤ 3 and schema-directed values (valid and mutated). " +
-			"A case is non-trivial when the model reports at least one non-default branch (skip, selection kind, option in effect, header/body outcome, schema flags).",
+			"each entry tagged by its own required header so that the entry chosen is observable (response without headers, and response carrying every tag header but one: rejected exactly when that entry is selected), other class keys (1XX,3XX,5XX,6XX,2xx,XXX) × boundary codes; " +
+			"(2) 20 header kinds (string, integer, boolean, untyped, arrays of integer/string/boolean/untyped/object/array items, array without items, objects with write-only / read-only properties, described by content) × raw texts chosen for the decoder (signs, leading zeros, base prefixes, underscores, blanks, int64 bounds, the twelve ParseBool words and near-misses, empty and unparsable array items in every position) × required × present/absent × options, a second value of the same header, pairs of failing headers in both name orders, the ignored Content-Type header, a non-canonical declared name; " +
+			"(3) 12 content maps × 17 Content-Type values (registered JSON types, the two text decoders, unregistered types, parameters, a blank before ';', upper case, no slash, empty) × 7 bodies × ExcludeResponseBody; failing body reader; (4) object schemas with all subsets of required ⊆ {a,ro,wo,z} × all key subsets of {a,ro,wo,x} × null/non-null write-only value × additionalProperties {absent,false,schema} × options, at top level, nested under a property, inside an array and under additionalProperties; " +
+			"then a seeded random stream of response maps, headers (kind × listed or free text over the decoder's alphabet), schemas of depth ≤ 3 and schema-directed values (valid and mutated). " +
+			"A case is non-trivial when the model reports at least one non-default branch (skip, selection kind, option in effect, header decoding outcome, header/body outcome, decoder kind, schema flags).",
 		Exhaustive: true,
 		Gen:        genC08,
 		Run:        runC08,
 		Compare:    cmpC08,
 		Shrink:     shrinkC08,
 		Assumptions: []string{
-			"header decoding (simple style, C05) and body decoding (C06) are inputs of the model: each case states the expected decoded value; the header claim is checked against the real decoder through the verif hook on every case, the body claim by the comparison itself",
-			"numbers are small integers (no float rounding); strings are ASCII",
-			"documents are resolved (no nil ResponseRef.Value / SchemaRef.Value); headers use the default (simple) serialization",
+			"the JSON body decoder (encoding/json, C06) is an input of the model: each case states its outcome, computed by encoding/json in the generator and tied by the comparison itself",
+			"the decoding of every header (untyped, primitive, array, flat object; plain and exploded) is computed by the model (decodeHeader) and compared with the real decoder (verif hook) on every case; the one corner left as an input (a schema applied to the empty property name) is never generated",
+			"numbers in schemas and bodies are small integers (no float rounding); header integers range over int64 and beyond; strings are ASCII",
+			"documents are resolved (no nil ResponseRef.Value / SchemaRef.Value); headers use the default (simple, not exploded) serialization; every present header has at least one value and only the first is decoded",
+			"no Content-Type whose registered decoder is YAML, CSV, urlencoded, multipart or zip is generated (their outcome would be an input of the model as well)",
 		},
 	})
 }
 
 // ---------- case → library objects ----------
 
-func jint(v any) int64 {
+func c08Int(v any) int64 {
 	switch x := v.(type) {
 	case int:
 		return int64(x)
@@ -74,11 +77,11 @@ func c08Schema(v any) *openapi3.Schema {
 	s.ReadOnly = jbool(m, "readOnly")
 	s.WriteOnly = jbool(m, "writeOnly")
 	if x, ok := m["maxLength"]; ok && x != nil {
-		n := uint64(jint(x))
+		n := uint64(c08Int(x))
 		s.MaxLength = &n
 	}
 	if x, ok := m["maximum"]; ok && x != nil {
-		f := float64(jint(x))
+		f := float64(c08Int(x))
 		s.Max = &f
 	}
 	s.Required = toStrs(m["required"])
@@ -171,16 +174,19 @@ func runC08(c hx.Case) any {
 	hdr := http.Header{}
 	for _, p := range jlist(c["hdrs"]) {
 		kv := jlist(p)
-		if len(kv) == 2 {
+		if len(kv) >= 2 {
 			k, _ := kv[0].(string)
-			v, _ := kv[1].(string)
 			if _, dup := hdr[http.CanonicalHeaderKey(k)]; !dup {
-				hdr[http.CanonicalHeaderKey(k)] = []string{v}
+				vals := []string{}
+				for _, x := range kv[1:] { // further values of the same header: only the first one is ever decoded
+					v, _ := x.(string)
+					vals = append(vals, v)
+				}
+				hdr[http.CanonicalHeaderKey(k)] = vals
 			}
 		}
 	}
-	decAgree := true
-	decDetail := ""
+	hdrDec := map[string]any{} // "<response key>/<header name>" -> what the real header decoder makes of a present header
 	for _, rv := range jlist(c["responses"]) {
 		rm := c08Map(rv)
 		key := jstr(rm, "key")
@@ -195,6 +201,10 @@ func runC08(c hx.Case) any {
 				hm := c08Map(hv)
 				h := &openapi3.Header{}
 				h.Required = jbool(hm, "required")
+				if jbool(hm, "explode") {
+					t := true
+					h.Explode = &t
+				}
 				if hm["schema"] != nil {
 					h.Schema = c08Schema(hm["schema"]).NewRef()
 				} else {
@@ -205,28 +215,9 @@ func runC08(c hx.Case) any {
 					continue
 				}
 				resp.Headers[name] = &openapi3.HeaderRef{Value: h}
-				// cross-check the decoding the case claims for a present header
-				if raw, ok := hdr[http.CanonicalHeaderKey(name)]; ok && h.Schema != nil {
-					sm, _ := h.SerializationMethod()
-					val, found, err := openapi3filter.VerifDecodeHeader(hdr, name, sm, h.Schema, h.Required)
-					dm := c08Map(hm["dec"])
-					var got string
-					switch {
-					case err != nil:
-						got = "err"
-					case val == nil:
-						got = "nil"
-					default:
-						got = "val:" + c08Canon(val)
-					}
-					want := jstr(dm, "k")
-					if want == "val" {
-						want = "val:" + c08Canon(dm["v"])
-					}
-					if got != want || !found {
-						decAgree = false
-						decDetail = fmt.Sprintf("header %q raw %q: decoder gives %s found=%v, case claims %s", name, raw, got, found, want)
-					}
+				// what the real decoder (decodeValue with the header decoder) makes of a present header
+				if _, ok := hdr[http.CanonicalHeaderKey(name)]; ok && h.Schema != nil {
+					hdrDec[key+"/"+name] = c08RealDecode(hdr, name, h)
 				}
 			}
 		}
@@ -258,14 +249,14 @@ func runC08(c hx.Case) any {
 	in := &openapi3filter.ResponseValidationInput{
 		RequestValidationInput: &openapi3filter.RequestValidationInput{Request: req,
 			Route: &routers.Route{Path: "/x", Method: method, Operation: op}},
-		Status: int(jint(c["status"])), Header: hdr, Options: opts,
+		Status: int(c08Int(c["status"])), Header: hdr, Options: opts,
 	}
 	if jbool(c, "readFails") {
 		in.Body = c08FailingReader{}
 	} else {
 		in.Body = io.NopCloser(strings.NewReader(body))
 	}
-	err := openapi3filter.ValidateResponse(context.Background(), in)
+	errClass := c08Validate(in)
 	var after any
 	if in.Body != nil {
 		if b, e := io.ReadAll(in.Body); e == nil {
@@ -277,11 +268,48 @@ func runC08(c hx.Case) any {
 			after = "unread" // the failing reader was not touched
 		}
 	}
-	out := map[string]any{"err": c08ErrClass(err), "bodyAfter": after, "decAgree": decAgree}
-	if !decAgree {
-		out["decDetail"] = decDetail
+	return map[string]any{"err": errClass, "bodyAfter": after, "hdrDec": hdrDec}
+}
+
+// ValidateResponse with a nil dereference observed as the outcome "panic" (the body is still inspected afterwards)
+func c08Validate(in *openapi3filter.ResponseValidationInput) (class any) {
+	defer func() {
+		if r := recover(); r != nil {
+			class = "panic"
+		}
+	}()
+	return c08ErrClass(openapi3filter.ValidateResponse(context.Background(), in))
+}
+
+func c08RealDecode(hdr http.Header, name string, h *openapi3.Header) (got string) {
+	defer func() {
+		if r := recover(); r != nil {
+			got = "panic"
+		}
+	}()
+	sm, _ := h.SerializationMethod()
+	val, found, err := openapi3filter.VerifDecodeHeader(hdr, name, sm, h.Schema, h.Required)
+	switch {
+	case err != nil:
+		got = "err"
+	case val == nil:
+		got = "nil"
+	default:
+		got = "val:" + c08Canon(val)
 	}
-	return out
+	if !found {
+		got += " (not found)"
+	}
+	return got
+}
+
+// the model's decoding outcome in the same notation
+func c08DecString(d map[string]any) string {
+	k := jstr(d, "k")
+	if k == "val" {
+		return "val:" + c08Canon(d["v"])
+	}
+	return k
 }
 
 func cmpC08(c hx.Case, impl any, reply map[string]any) hx.Verdict {
@@ -295,9 +323,29 @@ func cmpC08(c hx.Case, impl any, reply map[string]any) hx.Verdict {
 		return hx.Verdict{IM: false, IS: false, Detail: "implementation panicked: " + fmt.Sprint(im["panic"])}
 	}
 	v := hx.Verdict{IM: true, IS: true}
-	if !jbool(im, "decAgree") {
-		v.IM = false
-		v.Detail = "decoding assumption: " + jstr(im, "decDetail")
+	// header decoding: the model's decodeHeader (for object headers: the decoding the case states) against the real decoder
+	modelDec := map[string]string{}
+	for _, e := range jlist(model["hdrDec"]) {
+		kv := jlist(e)
+		if len(kv) == 2 {
+			k, _ := kv[0].(string)
+			if _, dup := modelDec[k]; !dup {
+				modelDec[k] = c08DecString(c08Map(kv[1]))
+			}
+		}
+	}
+	implDec := c08Map(im["hdrDec"])
+	for k, g := range implDec {
+		if w, ok := modelDec[k]; !ok || w != fmt.Sprint(g) {
+			v.IM = false
+			v.Detail = fmt.Sprintf("header decoding %s: real decoder gives %v, model %q", k, g, w)
+		}
+	}
+	for k := range modelDec {
+		if _, ok := implDec[k]; !ok {
+			v.IM = false
+			v.Detail = fmt.Sprintf("header decoding %s: the model decodes a header the run did not", k)
+		}
 	}
 	mAfter := model["bodyAfter"]
 	if jbool(c, "readFails") && mAfter != nil {
@@ -308,7 +356,10 @@ func cmpC08(c hx.Case, impl any, reply map[string]any) hx.Verdict {
 		v.Detail = fmt.Sprintf("impl err=%v bodyAfter=%v vs model err=%v bodyAfter=%v", im["err"], im["bodyAfter"], model["err"], mAfter)
 	}
 	accepted := im["err"] == nil
-	if accepted != jbool(spec, "accept") {
+	if im["err"] == "panic" {
+		v.IS = false // a nil dereference is neither an acceptance nor a rejection
+		v.Detail = "implementation panicked (nil dereference inside ValidateResponse)"
+	} else if accepted != jbool(spec, "accept") {
 		v.IS = false
 		v.Detail = fmt.Sprintf("verdict: impl err=%v, spec accept=%v", im["err"], jbool(spec, "accept"))
 	} else if !jbool(c, "readFails") && hx.Canon(im["bodyAfter"]) != hx.Canon(spec["bodyAfter"]) {
@@ -320,27 +371,31 @@ func cmpC08(c hx.Case, impl any, reply map[string]any) hx.Verdict {
 
 // ---------- generators ----------
 
-type sj = map[string]any
+type c08J = map[string]any
 
-func c08S(kv ...any) sj {
-	m := sj{}
+func c08S(kv ...any) c08J {
+	m := c08J{}
 	for i := 0; i+1 < len(kv); i += 2 {
 		m[kv[i].(string)] = kv[i+1]
 	}
 	return m
 }
-func c08Val(v any) sj { return sj{"k": "val", "v": v} }
+func c08Val(v any) c08J { return c08J{"k": "val", "v": v} }
 
-var c08Nil = sj{"k": "nil"}
-var c08Err = sj{"k": "err"}
+var c08Nil = c08J{"k": "nil"}
+var c08Err = c08J{"k": "err"}
 
-func c08Hdr(name string, required bool, schema any, dec any) sj {
-	return sj{"name": name, "required": required, "schema": schema, "dec": dec}
+// the fourth argument is unused since the model decodes every header itself (kept for the older corpus files' shape)
+func c08Hdr(name string, required bool, schema any, _ any) c08J {
+	return c08J{"name": name, "required": required, "schema": schema}
 }
-func c08Resp(key string, headers []any, content []any) sj {
-	return sj{"key": key, "headers": headers, "content": content}
+func c08HdrX(name string, required bool, schema any, explode bool) c08J {
+	return c08J{"name": name, "required": required, "schema": schema, "explode": explode}
 }
-func c08MT(mime string, schema any) sj { return sj{"mime": mime, "schema": schema} }
+func c08Resp(key string, headers []any, content []any) c08J {
+	return c08J{"key": key, "headers": headers, "content": content}
+}
+func c08MT(mime string, schema any) c08J { return c08J{"mime": mime, "schema": schema} }
 
 func c08Case(method string, status int, responses []any, hdrs []any, body string, bodyDec any, o int) hx.Case {
 	return hx.Case{"method": method, "status": status, "responses": responses, "hdrs": hdrs, "body": body,
@@ -366,24 +421,54 @@ func c08HeaderKinds() []c08HK {
 	objWO := c08S("type", "object", "properties", []any{[]any{"n", c08S("type", "string")}, []any{"pw", pw}})
 	objWOReq := c08S("type", "object", "required", []any{"pw"}, "properties", []any{[]any{"n", c08S("type", "string")}, []any{"pw", pw}})
 	objPlain := c08S("type", "object", "required", []any{"n"}, "properties", []any{[]any{"m", c08S("type", "integer")}, []any{"n", c08S("type", "string", "readOnly", true)}})
+	// the model decodes every header itself; `dec` of the raw/dec pairs is unused (the run compares the model's
+	// decoding with the real decoder on every case)
+	t := func(raws ...string) []rd {
+		out := []rd{}
+		for _, r := range raws {
+			out = append(out, rd{r, c08Err})
+		}
+		return out
+	}
+	ints := []string{"5", "50", "abc", "", "-3", "+5", "-0", "007", "1_0", "0x10", "0x5", "0b11", "0o7", "0_7", "07", " 5", "5 ", "-", "+", "1e3", "1.0", "5.0",
+		"9223372036854775807", "9223372036854775808", "-9223372036854775808", "-9223372036854775809", "99999999999999999999999"}
+	bools := []string{"true", "x", "1", "t", "T", "TRUE", "True", "tRue", "0", "f", "F", "FALSE", "False", "false", "yes", " true", ""}
+	arrs := []string{"1,2", "5", "1,50", "1,x", "", "1,,2", ",1", "1,", "x,", ",x", "1,x,", ",", "+1,-0,007", "1, 2"}
 	return []c08HK{
-		{c08S("type", "string", "maxLength", 3), []rd{{"abc", c08Val("abc")}, {"abcdef", c08Val("abcdef")}, {"", c08Nil}}},
-		{c08S("type", "string", "nullable", true), []rd{{"abc", c08Val("abc")}, {"", c08Nil}}},
-		{c08S("type", "integer", "maximum", 9), []rd{{"5", c08Val(5)}, {"50", c08Val(50)}, {"abc", c08Err}, {"", c08Nil}, {"-3", c08Val(-3)}}},
-		{c08S("type", "boolean"), []rd{{"true", c08Val(true)}, {"x", c08Err}}},
-		{c08S(), []rd{{"abc", c08Nil}, {"", c08Nil}}},
-		{c08S("nullable", true), []rd{{"abc", c08Nil}}},
-		{c08S("maxLength", 2), []rd{{"abcdef", c08Nil}}},
-		{c08S("type", "array", "items", c08S("type", "integer", "maximum", 9)), []rd{{"1,2", c08Val([]any{1, 2})}, {"5", c08Val([]any{5})}, {"1,50", c08Val([]any{1, 50})}, {"1,x", c08Err}, {"", c08Nil}}},
-		{c08S("type", "array", "items", c08S("type", "string", "maxLength", 2)), []rd{{"ab,c", c08Val([]any{"ab", "c"})}, {"ab,cdef", c08Val([]any{"ab", "cdef"})}}},
-		{objWO, []rd{{"pw,x", c08Val(sj{"pw": "x"})}, {"n,x", c08Val(sj{"n": "x"})}, {"n,x,pw,y", c08Val(sj{"n": "x", "pw": "y"})}, {"n", c08Err}}},
-		{objWOReq, []rd{{"pw,x", c08Val(sj{"pw": "x"})}, {"n,x", c08Val(sj{"n": "x"})}}},
-		{objPlain, []rd{{"n,x", c08Val(sj{"n": "x"})}, {"m,4", c08Val(sj{"m": 4})}, {"m,4,n,x", c08Val(sj{"m": 4, "n": "x"})}, {"m,zz", c08Err}}},
+		{c08S("type", "string", "maxLength", 3), t("abc", "abcdef", "", "a,b", ",", " ")},
+		{c08S("type", "string", "nullable", true), t("abc", "")},
+		{c08S("type", "integer", "maximum", 9), t(ints...)},
+		{c08S("type", "integer", "nullable", true), t("5", "", "x")},
+		{c08S("type", "boolean"), t(bools...)},
+		{c08S(), t("abc", "")},
+		{c08S("nullable", true), t("abc")},
+		{c08S("maxLength", 2), t("abcdef")},
+		{c08S("type", "array", "items", c08S("type", "integer", "maximum", 9)), t(arrs...)},
+		{c08S("type", "array", "nullable", true, "items", c08S("type", "integer")), t("1,2", "1,,2", "", "x")},
+		{c08S("type", "array", "items", c08S("type", "string", "maxLength", 2)), t("ab,c", "ab,cdef", "ab,,c", "")},
+		{c08S("type", "array", "items", c08S("type", "boolean")), t("true,0", "true,no", "T,")},
+		{c08S("type", "array", "items", c08S()), t("1,2", "", "a")},                  // untyped items: no value
+		{c08S("type", "array", "items", c08S("type", "object")), t("1,2", "", ",a")}, // non-primitive items: decode error
+		{c08S("type", "array", "items", c08S("type", "array", "items", c08S("type", "integer"))), t("1")},
+		{c08S("type", "array"), t("1,2", "", ",1", "a")}, // no items: nil dereference (F-C08-5)
+		{c08S("type", "array", "nullable", true), t("1", "")},
+		{objWO, t("pw,x", "n,x", "n,x,pw,y", "n", "", "n,x,n,y", "pw,x,pw,", "q,1", "n,,pw,", ",", "n,x,", "n=x", "n=x,pw=y")},
+		{objWOReq, t("pw,x", "n,x", "n,x,pw,y", "pw,")},
+		{objPlain, t("n,x", "m,4", "m,4,n,x", "m,zz", "", "q,1", "m,4,m,zz", "m,zz,m,4", "m,,n,x", "m,+4", "n,x,q", "m=4,n=x", "m=4", "m=4=5", "m")},
+		// properties of every kind inside an object header: untyped and empty → no entry, object-typed → the text, array-typed → error
+		{c08S("type", "object", "properties", []any{[]any{"u", c08S()}, []any{"o", c08S("type", "object")}, []any{"a", c08S("type", "array", "items", c08S("type", "integer"))}, []any{"b", c08S("type", "boolean")}}),
+			t("u,1", "o,1", "a,1", "b,T", "b,no", "u,1,o,x,b,0", "b,", "o,", "a,")},
+		// additionalProperties as a schema / false / true
+		{c08S("type", "object", "properties", []any{[]any{"m", c08S("type", "integer")}}, "addl", c08S("type", "integer", "maximum", 9)),
+			t("m,4,q,7", "q,7", "q,70", "q,x", "q,", "q,7,q,x", "q,x,q,7", "m,4,m,5", "q,1,r,2", "m,x,q,1")},
+		{c08S("type", "object", "properties", []any{[]any{"m", c08S("type", "integer")}}, "addl", false), t("m,4,q,7", "q,7", "m,4")},
+		{c08S("type", "object", "addl", c08S("type", "string", "writeOnly", true)), t("q,x", "q,")},
+		{c08S("type", "object", "nullable", true), t("", "a,b", "a")},
 	}
 }
 
 // response-side object schema family of block (4)
-func c08ObjSchema(required []any, woNullable bool, addl any) sj {
+func c08ObjSchema(required []any, woNullable bool, addl any) c08J {
 	wo := c08S("type", "string", "writeOnly", true)
 	if woNullable {
 		wo["nullable"] = true
@@ -417,6 +502,21 @@ func c08Subsets(names []string) [][]any {
 }
 
 func c08JSON(v any) string { b, _ := json.Marshal(v); return string(b) }
+
+// what JSONBodyDecoder makes of a body text: the claim every case carries in "bodyDec". The model reads it only when
+// the decoder registered for the Content-Type is neither the plain nor the file decoder; the generators emit no
+// Content-Type whose decoder is another non-JSON one (YAML, CSV, urlencoded, multipart, zip).
+func c08JSONDec(body string) any {
+	var v any
+	d := json.NewDecoder(strings.NewReader(body))
+	d.UseNumber()
+	if d.Decode(&v) == nil {
+		if _, e := d.Token(); e == io.EOF {
+			return c08Val(v)
+		}
+	}
+	return c08Err
+}
 
 var c08JSONHdr = []any{[]any{"Content-Type", "application/json"}}
 
@@ -473,6 +573,17 @@ func genC08(ctx *hx.Ctx, emit func(hx.Case)) {
 			emit(c08Case("GET", 200, []any{c08Resp("200", []any{c08Hdr("X-A", req, hk.schema, c08Nil)}, nil)}, []any{[]any{"X-Other", "1"}}, "", c08Err, 0))
 		}
 	}
+	for _, hk := range kinds { // explode: true matters for object-valued headers only
+		for _, rd := range hk.raws {
+			if jstr(c08Map(hk.schema), "type") == "object" || strings.Contains(rd.raw, "=") {
+				emit(c08Case("GET", 200, []any{c08Resp("200", []any{c08HdrX("X-A", true, hk.schema, true)}, nil)}, []any{[]any{"X-A", rd.raw}}, "", c08Err, 0))
+			}
+		}
+	}
+	for _, second := range []string{"x", "", "9"} { // a second value of the header is never looked at
+		emit(c08Case("GET", 200, []any{c08Resp("200", []any{c08Hdr("X-A", true, c08S("type", "integer", "maximum", 9), c08Err)}, nil)}, []any{[]any{"X-A", "5", second}}, "", c08Err, 0))
+		emit(c08Case("GET", 200, []any{c08Resp("200", []any{c08Hdr("X-A", true, c08S("type", "integer", "maximum", 9), c08Err)}, nil)}, []any{[]any{"X-A", "x", "5"}}, "", c08Err, 0))
+	}
 	for _, req := range []bool{false, true} { // described by content (finding #22, fixed)
 		emit(c08Case("GET", 200, []any{c08Resp("200", []any{c08Hdr("X-A", req, nil, c08Nil)}, nil)}, []any{}, "", c08Err, 0))
 		emit(c08Case("GET", 200, []any{c08Resp("200", []any{c08Hdr("X-A", req, nil, c08Nil)}, nil)}, []any{[]any{"X-A", "anything"}}, "", c08Err, 0))
@@ -516,35 +627,25 @@ func genC08(ctx *hx.Ctx, emit func(hx.Case)) {
 		{c08MT("application/problem+json", strS), c08MT("application/*", c08S("type", "integer"))},
 		{c08MT("json", strS)},
 	}
-	cts := []string{"", "application/json", "application/json; charset=utf-8", "application/json;charset=utf-8", "text/plain", "text/plain; charset=x", "application/xml", "application/problem+json", "json", "application/"}
-	jsonLike := map[string]bool{"application/json": true, "application/problem+json": true}
+	contents = append(contents,
+		[]any{c08MT("application/octet-stream", strS), c08MT("application/hal+json", c08S("type", "integer"))},
+		[]any{c08MT("application/xml", strS), c08MT("text/*", strS)},
+		[]any{c08MT("APPLICATION/JSON", strS)},
+	)
+	// registered JSON types, the two text decoders, unregistered types, a blank before ';' (parseMediaType does not trim),
+	// an upper-case type (registry and content map are case-sensitive)
+	cts := []string{"", "application/json", "application/json; charset=utf-8", "application/json;charset=utf-8", "text/plain", "text/plain; charset=x",
+		"application/xml", "application/problem+json", "json", "application/", "application/hal+json", "application/vnd.api+json",
+		"application/octet-stream", "application/json ; charset=utf-8", "APPLICATION/JSON", "text/html", "application/x-ndjson"}
 	for _, content := range contents {
 		for _, ct := range cts {
-			for _, body := range []string{`"ab"`, `"abcdef"`, `7`, `{"a":`, `"ab" x`} {
-				mt := ct
-				if i := strings.IndexByte(ct, ';'); i >= 0 {
-					mt = ct[:i]
-				}
-				var dec any = c08Err
-				switch {
-				case jsonLike[mt]:
-					var v any
-					d := json.NewDecoder(strings.NewReader(body))
-					d.UseNumber()
-					if d.Decode(&v) == nil {
-						if _, e := d.Token(); e == io.EOF {
-							dec = c08Val(v)
-						}
-					}
-				case mt == "text/plain":
-					dec = c08Val(body)
-				}
+			for _, body := range []string{`"ab"`, `"abcdef"`, `7`, `{"a":`, `"ab" x`, `ab`, ``} {
 				hd := []any{}
 				if ct != "" {
 					hd = append(hd, []any{"Content-Type", ct})
 				}
 				for _, o := range []int{0, 2} {
-					emit(c08Case("GET", 200, []any{c08Resp("200", nil, content)}, hd, body, dec, o))
+					emit(c08Case("GET", 200, []any{c08Resp("200", nil, content)}, hd, body, c08JSONDec(body), o))
 				}
 			}
 		}
@@ -562,14 +663,14 @@ func genC08(ctx *hx.Ctx, emit func(hx.Case)) {
 	reqSubs := c08Subsets([]string{"a", "ro", "wo", "z"})
 	keySubs := c08Subsets([]string{"a", "ro", "wo", "x"})
 	addls := []any{nil, false, c08S("type", "integer")}
-	wrap := []func(s sj, v any) (sj, any){
-		func(s sj, v any) (sj, any) { return s, v },
-		func(s sj, v any) (sj, any) {
-			return c08S("type", "object", "properties", []any{[]any{"n", s}}), sj{"n": v}
+	wrap := []func(s c08J, v any) (c08J, any){
+		func(s c08J, v any) (c08J, any) { return s, v },
+		func(s c08J, v any) (c08J, any) {
+			return c08S("type", "object", "properties", []any{[]any{"n", s}}), c08J{"n": v}
 		},
-		func(s sj, v any) (sj, any) { return c08S("type", "array", "items", s), []any{sj{"a": "s"}, v} },
-		func(s sj, v any) (sj, any) {
-			return c08S("type", "object", "addl", s), sj{"k1": v}
+		func(s c08J, v any) (c08J, any) { return c08S("type", "array", "items", s), []any{c08J{"a": "s"}, v} },
+		func(s c08J, v any) (c08J, any) {
+			return c08S("type", "object", "addl", s), c08J{"k1": v}
 		},
 	}
 	for wi, w := range wrap {
@@ -580,7 +681,7 @@ func genC08(ctx *hx.Ctx, emit func(hx.Case)) {
 						if wi > 0 && !ctx.Thorough() && (len(req)+len(ks)+vi+ai)%3 != 0 {
 							continue // quick tier thins the wrapped variants
 						}
-						val := sj{}
+						val := c08J{}
 						hasWO := false
 						for _, k := range ks {
 							switch k {
@@ -606,9 +707,9 @@ func genC08(ctx *hx.Ctx, emit func(hx.Case)) {
 		}
 	}
 	// seeded random stream
-	n := 6000
+	n := 20000
 	if ctx.Thorough() {
-		n = 120000
+		n = 250000
 	}
 	for i := 0; i < n; i++ {
 		emit(c08Random(r, kinds))
@@ -617,8 +718,8 @@ func genC08(ctx *hx.Ctx, emit func(hx.Case)) {
 
 var c08PropNames = []string{"a", "b", "c", "d"}
 
-func c08RandSchema(r *hx.Rng, depth int) sj {
-	s := sj{}
+func c08RandSchema(r *hx.Rng, depth int) c08J {
+	s := c08J{}
 	kinds := []string{"string", "integer", "boolean", "object", "object", "array", ""}
 	if depth <= 0 {
 		kinds = []string{"string", "integer", "boolean", ""}
@@ -684,9 +785,9 @@ func c08RandSchema(r *hx.Rng, depth int) sj {
 }
 
 // a value directed by the schema as a response reader sees it, with mutations
-func c08RandValue(r *hx.Rng, s sj, depth int) any {
+func c08RandValue(r *hx.Rng, s c08J, depth int) any {
 	if r.Chance(6) {
-		return hx.Pick(r, []any{nil, "s", 3, true, sj{}, []any{}})
+		return hx.Pick(r, []any{nil, "s", 3, true, c08J{}, []any{}})
 	}
 	if jbool(s, "nullable") && r.Chance(20) {
 		return nil
@@ -704,7 +805,7 @@ func c08RandValue(r *hx.Rng, s sj, depth int) any {
 		return r.Bool()
 	case "array":
 		out := []any{}
-		it, _ := s["items"].(sj)
+		it, _ := s["items"].(c08J)
 		for i, k := 0, r.Intn(3); i < k; i++ {
 			if it != nil {
 				out = append(out, c08RandValue(r, it, depth-1))
@@ -714,11 +815,11 @@ func c08RandValue(r *hx.Rng, s sj, depth int) any {
 		}
 		return out
 	default:
-		out := sj{}
-		declared := map[string]sj{}
+		out := c08J{}
+		declared := map[string]c08J{}
 		for _, p := range jlist(s["properties"]) {
 			kv := jlist(p)
-			declared[kv[0].(string)], _ = kv[1].(sj)
+			declared[kv[0].(string)], _ = kv[1].(c08J)
 		}
 		reqd := map[string]bool{}
 		for _, k := range toStrs(s["required"]) {
@@ -744,7 +845,7 @@ func c08RandValue(r *hx.Rng, s sj, depth int) any {
 				} else {
 					out[k] = c08RandValue(r, ps, depth-1)
 				}
-			} else if a, ok := s["addl"].(sj); ok {
+			} else if a, ok := s["addl"].(c08J); ok {
 				out[k] = c08RandValue(r, a, depth-1)
 			} else {
 				out[k] = hx.Pick(r, []any{1, "s", nil})
@@ -758,7 +859,8 @@ func c08Random(r *hx.Rng, kinds []c08HK) hx.Case {
 	keys := []string{"200", "201", "2XX", "4XX", "404", "default", "5XX", "3XX"}
 	resps := []any{}
 	hd := []any{}
-	ctChoices := []string{"application/json", "application/json", "application/json", "application/json; charset=utf-8", "text/plain", "application/xml", ""}
+	ctChoices := []string{"application/json", "application/json", "application/json", "application/json; charset=utf-8", "text/plain", "application/xml", "",
+		"application/problem+json", "application/octet-stream", "text/plain; charset=utf-8", "application/json ;q=1"}
 	ct := hx.Pick(r, ctChoices)
 	if ct != "" {
 		hd = append(hd, []any{"Content-Type", ct})
@@ -771,20 +873,14 @@ func c08Random(r *hx.Rng, kinds []c08HK) hx.Case {
 		bs = c08RandSchema(r, 3)
 	}
 	bv := c08RandValue(r, bs, 3)
+	body = c08JSON(bv)
 	switch {
-	case strings.HasPrefix(ct, "application/json"):
-		body = c08JSON(bv)
-		bodyDec = c08Val(bv)
-		if r.Chance(4) {
-			body = body + "]"
-			bodyDec = c08Err
-		}
-	case ct == "text/plain":
+	case r.Chance(4):
+		body = body + "]"
+	case strings.HasPrefix(ct, "text/plain") && r.Chance(70):
 		body = hx.Pick(r, []string{"", "ab", "abcd"})
-		bodyDec = c08Val(body)
-	default:
-		body = c08JSON(bv)
 	}
+	bodyDec = c08JSONDec(body)
 	// per response-header name: one kind and either a raw value (present) or absence, for the whole case
 	type hsel struct {
 		hk      c08HK
@@ -798,7 +894,23 @@ func c08Random(r *hx.Rng, kinds []c08HK) hx.Case {
 		h := hsel{hk: hk, present: r.Chance(65), dec: c08Nil}
 		if h.present {
 			h.dec = rd.dec
-			hd = append(hd, []any{name, rd.raw})
+			raw := rd.raw
+			if r.Chance(30) {
+				// free text over the alphabet the decoders care about (the model decodes it itself)
+				alphabet := []string{"0", "1", "7", "9", "+", "-", ",", ",", "x", "t", "T", " ", "true", "12"}
+				if jstr(c08Map(hk.schema), "type") == "object" {
+					alphabet = []string{"n", "m", "pw", "q", "u", "o", "a", "b", ",", ",", ",", "=", "x", "4", "zz", "T", "7"}
+				}
+				raw = ""
+				for k, n := 0, r.Intn(7); k < n; k++ {
+					raw += hx.Pick(r, alphabet)
+				}
+			}
+			if r.Chance(8) {
+				hd = append(hd, []any{name, raw, hx.Pick(r, []string{"zzz", "", "7"})}) // a second value of the same header
+			} else {
+				hd = append(hd, []any{name, raw})
+			}
 		}
 		sel[name] = h
 	}
@@ -820,7 +932,7 @@ func c08Random(r *hx.Rng, kinds []c08HK) hx.Case {
 			if r.Chance(8) {
 				schema = nil
 			}
-			hs = append(hs, c08Hdr(name, r.Chance(50), schema, h.dec))
+			hs = append(hs, c08HdrX(name, r.Chance(50), schema, r.Chance(12)))
 		}
 		content := []any{}
 		for _, m := range []string{"application/json", "application/*", "*/*", "text/plain", "application/json; charset=utf-8"} {
@@ -855,10 +967,10 @@ func c08Random(r *hx.Rng, kinds []c08HK) hx.Case {
 
 // ---------- shrinking ----------
 
-func c08SmallerSchemas(sm map[string]any) []sj {
-	var out []sj
-	cp := func() sj {
-		m := sj{}
+func c08SmallerSchemas(sm map[string]any) []c08J {
+	var out []c08J
+	cp := func() c08J {
+		m := c08J{}
 		for a, b := range sm {
 			m[a] = b
 		}
@@ -914,7 +1026,7 @@ func shrinkC08(c hx.Case) []hx.Case {
 			for _, n := range dropEach(jlist(rm[k])) {
 				x := cloneCase(c)
 				nr := append([]any{}, resps...)
-				m2 := sj{}
+				m2 := c08J{}
 				for a, b := range rm {
 					m2[a] = b
 				}
@@ -944,8 +1056,8 @@ func shrinkC08(c hx.Case) []hx.Case {
 				x := cloneCase(c)
 				nr := append([]any{}, resps...)
 				ncs := append([]any{}, cs...)
-				ncs[j] = sj{"mime": cm["mime"], "schema": ns}
-				m2 := sj{}
+				ncs[j] = c08J{"mime": cm["mime"], "schema": ns}
+				m2 := c08J{}
 				for a, b := range rm {
 					m2[a] = b
 				}
@@ -960,7 +1072,7 @@ func shrinkC08(c hx.Case) []hx.Case {
 	if bd := c08Map(c["bodyDec"]); jstr(bd, "k") == "val" {
 		if vm, ok := bd["v"].(map[string]any); ok && jstr(c, "body") == c08JSON(vm) {
 			for k := range vm {
-				nv := sj{}
+				nv := c08J{}
 				for a, b := range vm {
 					if a != k {
 						nv[a] = b
